@@ -197,10 +197,12 @@ func (h *handler) OnTraffic(c gnet.Conn) gnet.Action {
 func (h *handler) OnClose(c gnet.Conn, err error) gnet.Action {
 	ci := h.info(c)
 	h.rec.mu.Lock()
-	if h.rec.shutdown && ci.mcid >= 0 {
+	// the closing sweep: after a stop request / Shutdown action, or after the loop gave up on a fatal accept error
+	sweeping := h.rec.shutdown || h.rec.acceptFatal
+	if sweeping && ci.mcid >= 0 {
 		h.rec.add("op", tr.L("pick", tr.I(ci.mcid)))
 	}
-	ci.closedInSweep = h.rec.shutdown
+	ci.closedInSweep = sweeping
 	h.rec.closing[ci.cid] = true
 	h.rec.mu.Unlock()
 	if !ci.opened {
@@ -336,6 +338,7 @@ func (h *handler) pickAction(ci *connInfo, cb string) gnet.Action {
 		if h.cfg.scenario == "shutdown-from-onclose" && cb == "close" {
 			h.rec.mu.Lock()
 			h.rec.shutdown = true
+			h.rec.shutdownAsked = true
 			h.rec.mu.Unlock()
 			return gnet.Shutdown
 		}
@@ -357,6 +360,7 @@ func (h *handler) pickAction(ci *connInfo, cb string) gnet.Action {
 	case p < h.cfg.pClose+h.cfg.pShutdown:
 		h.rec.mu.Lock()
 		h.rec.shutdown = true
+		h.rec.shutdownAsked = true
 		h.rec.mu.Unlock()
 		return gnet.Shutdown
 	}
@@ -880,6 +884,15 @@ func (h *handler) scenarioScript(ci *connInfo, cb string) {
 				h.doCall(ci, "inbuf", 0, nil, false)
 				h.doCall(ci, "writeto", -1, nil, false)
 			}
+		}
+	case "write-fail-del-fail":
+		if cb == "traffic" {
+			h.doCall(ci, "next", -1, nil, false)
+			h.doCall(ci, "write", 0, big(10), false) // the first write of the case fails: EPIPE injected
+		}
+	case "accept-fatal":
+		if cb == "traffic" {
+			h.doCall(ci, "next", -1, nil, false)
 		}
 	case "async-flood":
 		if cb == "traffic" && ci.traffic == 1 {
